@@ -217,6 +217,20 @@ def proofs(prop, thorough):
     return res
 
 
+def trusted_base_of(meta, pr):
+    """Common trusted base with the axiom line replaced by what #print axioms reported on this run."""
+    native = sorted({t["name"].split(".")[-1] for t in pr["theorems"]
+                     for a in t["axioms"] if a not in ALLOWED_AXIOMS})
+    out = []
+    for t in meta["trusted_base"]:
+        if t.startswith("axioms propext") and native:
+            t = ("axioms propext, Classical.choice, Quot.sound for every theorem except %d that also depend on bv_decide "
+                 "per-use axioms (SAT certificate checked by compiled code, accepted for this property: %s) "
+                 "(audited with #print axioms on every run)" % (len(native), ", ".join(native[:12]) + (" ..." if len(native) > 12 else "")))
+        out.append(t)
+    return out
+
+
 def load_known(prop):
     known, fixed = [], []
     path = os.path.join(ROOT, "known_findings.txt")
@@ -474,7 +488,7 @@ def main():
         coverage=dict(
             obligations=max(pr["obligations"], 1), discharged=pr["discharged"],
             checker_cmd=f"cd /verif/lean && lake build JominiModel.Props.{prop} && lake env lean Audit/{prop}.lean" + (" && lake env leanchecker JominiModel.Props." + prop if tier == "thorough" else ""),
-            trusted_base=meta["trusted_base"],
+            trusted_base=trusted_base_of(meta, pr),
             theorems=pr["theorems"], proof_failures=pr["failures"],
             evaluations=max(corr["evaluations"], 0), distinct_nontrivial=corr["distinct_nontrivial"],
             rule="case lines are generated by harness/src/props/%s.rs from one SplitMix64 state (VERIF_SEED) plus exhaustive small-alphabet enumerations and the committed corpus; every line is executed by the real code (harness) and by the Lean model (jmdriver) and the result lines are compared; a case counts as distinct non-trivial when its case line is unique and its implementation result differs from the most frequent result line of the run" % prop.lower(),
